@@ -3,6 +3,7 @@ from lib import *  # noqa
 import lock
 from lib import _mem_rw
 import effects
+import C07
 
 TECHNIQUE = ("lock-depth dataflow with balance check on every function, entry-context propagation from all thread roots (public API, event thread, "
              "reload thread, slot-resolved callbacks), lockset check of every access to channel-reachable state, lock-order / no-callback-under-event-mutex "
@@ -12,12 +13,12 @@ LEVEL_TEXT = ("static: decides the lock discipline race freedom rests on, for al
               "cache state happens with the channel lock held, except inside construction/tear-down and for fields never written after construction; "
               "(ORDER) the channel lock is never taken and no channel code runs while the event thread's mutex is held; (COND) waiting for an empty queue "
               "re-tests its predicate under the lock and every emptier notifies under the lock; (TEARDOWN) destroy marks down, stops the watcher, joins the "
-              "reload thread, then tears down. Does not decide lost wake-ups beyond C07's rule, fairness or timing.")
+              "reload thread, then tears down. (WAKE) a request that becomes the earliest to time out wakes the event thread. Does not decide other lost wake-ups, fairness or timing.")
 LEVEL_NOTE = ("trusts clang CFG + extractor; indirect calls resolved by slot (assignments / initialisers / parameter-to-field forwarding) and per container "
               "instance; ares_init_options (unpublished object) and ares_destroy (exclusive by contract) are treated as holding the lock")
 DESIGN_REF = "DESIGN.md §6/C11"
 EXPLANATION = LEVEL_TEXT
-NOT_DECIDED = "lost wake-ups other than R-C07-WAKE; fairness; races on objects not reachable from the channel (e.g. library init globals)"
+NOT_DECIDED = "lost wake-ups other than the deadline wake (R-C11-WAKE) and the empty-queue notification (R-C11-COND); fairness; races on objects not reachable from the channel (e.g. library init globals)"
 
 GUARDED_RECORDS = {"ares_channeldata", "ares_server", "ares_conn", "ares_query", "ares_qcache"}
 UNGUARDED_FIELDS = {("ares_channeldata", "lock"), ("ares_channeldata", "cond_empty")}
@@ -444,3 +445,5 @@ def run(prog, R, tier):
     r_order(prog, R, L, E)
     r_cond(prog, R, L)
     r_teardown(prog, R, L)
+    # the one cross-thread wake-up the per-request time bound rests on (same rule as C07)
+    C07.r_wake(prog, R, rid="R-C11-WAKE")
